@@ -197,6 +197,28 @@ func poolsLoad(menuPath string, nclone int) (*poolsWorld, error) {
 	return w, nil
 }
 
+// Tag-name aliases: a tag name of the model other than the default one is an opaque label, so every type also carries
+// its rules under the names <tag>r<run>k<k>; the concurrent runs pick one of the aliases of their run per call, so that
+// tag names - like types - are seen for the first time by several goroutines at once. (lib/fam_pools.py writes the same
+// names into the generated types; poolsCheckNamed compares.)
+const (
+	poolsAliasRuns = 4
+	poolsAliasK    = 4
+)
+
+func poolsAliases(tn string) []string {
+	if tn == "valid" {
+		return nil
+	}
+	var out []string
+	for r := 1; r <= poolsAliasRuns; r++ {
+		for k := 0; k < poolsAliasK; k++ {
+			out = append(out, fmt.Sprintf("%sr%dk%d", tn, r, k))
+		}
+	}
+	return out
+}
+
 // poolsCheckNamed: the generated Go type must be exactly what the spec's table says.
 func poolsCheckNamed(t poolsType, rt reflect.Type, tags []string) error {
 	if rt.Name() != t.Name || rt.NumField() != len(t.Fields) {
@@ -210,6 +232,11 @@ func poolsCheckNamed(t poolsType, rt reflect.Type, tags []string) error {
 		for _, tn := range tags {
 			if sf.Tag.Get(tn) != f.Tags[tn] {
 				return fmt.Errorf("generated type %s field %s tag %s: %q vs %q", t.Id, f.Name, tn, sf.Tag.Get(tn), f.Tags[tn])
+			}
+			for _, al := range poolsAliases(tn) {
+				if sf.Tag.Get(al) != f.Tags[tn] {
+					return fmt.Errorf("generated type %s field %s tag alias %s: %q vs %q", t.Id, f.Name, al, sf.Tag.Get(al), f.Tags[tn])
+				}
 			}
 		}
 	}
@@ -238,10 +265,32 @@ func (w *poolsWorld) structOf(t poolsType, clone int) reflect.Type {
 		for _, tn := range w.menu.Mark.Tags {
 			if txt := f.Tags[tn]; txt != "" {
 				tag += tn + ":" + strconv.Quote(txt) + " "
+				for _, al := range poolsAliases(tn) {
+					tag += al + ":" + strconv.Quote(txt) + " "
+				}
 			}
 		}
 		if i == 0 {
 			tag += "pid:" + strconv.Quote(strconv.Itoa(clone))
+		}
+		fs = append(fs, reflect.StructField{Name: f.Name, Type: w.fieldType(f), Tag: reflect.StructTag(strings.TrimSpace(tag))})
+	}
+	return reflect.StructOf(fs)
+}
+
+// volleyType: a brand-new clone of anonymous type t whose rules for tag names a and b sit under two brand-new names.
+func (w *poolsWorld) volleyType(t poolsType, ta, na, tb, nb string, serial int) reflect.Type {
+	fs := make([]reflect.StructField, 0, len(t.Fields))
+	for i, f := range t.Fields {
+		tag := ""
+		if txt := f.Tags[ta]; txt != "" {
+			tag += na + ":" + strconv.Quote(txt) + " "
+		}
+		if txt := f.Tags[tb]; txt != "" {
+			tag += nb + ":" + strconv.Quote(txt) + " "
+		}
+		if i == 0 {
+			tag += "vid:" + strconv.Quote(strconv.Itoa(serial))
 		}
 		fs = append(fs, reflect.StructField{Name: f.Name, Type: w.fieldType(f), Tag: reflect.StructTag(strings.TrimSpace(tag))})
 	}
@@ -483,6 +532,10 @@ type poolsRunner struct {
 	g      int // goroutine number (selects private clones)
 	shared float64
 	cl     int // clone of the anonymous types used by the current call
+	alias  int // > 0: non-default tag names are replaced by one of their aliases of this run
+	// a volley call: this root type and this concrete tag name instead of the descriptor's (same fields, same rules)
+	volType reflect.Type
+	volTag  string
 }
 
 func (r *poolsRunner) clone() int {
@@ -582,6 +635,9 @@ func (r *poolsRunner) run(c int, rec poolsDescRec, clone int) (o poolsOutcome) {
 func (r *poolsRunner) runStruct(d poolsDesc, fnMap valid.Name2FnMap, o *poolsOutcome) error {
 	cl := r.cl
 	rt := r.w.rtype(d.T, cl)
+	if r.volType != nil {
+		rt = r.volType
+	}
 	nilRoot := d.Val.K == "nilptr" // the argument is a nil pointer to the root type
 	var val, pristine reflect.Value
 	if nilRoot {
@@ -613,6 +669,13 @@ func (r *poolsRunner) runStruct(d poolsDesc, fnMap valid.Name2FnMap, o *poolsOut
 		typed = append(typed, typedRM{reflect.New(tt).Interface(), poolsRM(te.Rm), poolsRM(te.Rm)})
 	}
 	var err error
+	tag := d.Tag
+	if r.alias > 0 && r.alias <= poolsAliasRuns && tag != "valid" {
+		tag = fmt.Sprintf("%sr%dk%d", tag, r.alias, r.rng.Intn(poolsAliasK))
+	}
+	if r.volTag != "" {
+		tag = r.volTag
+	}
 	choice := r.rng.Intn(4)
 	fnKeys := len(fnMap) // the caller's function table is an input too: the library must not add to it
 	// a rule set registered for a type and then registered again: the first one names a field the type does not have,
@@ -630,19 +693,19 @@ func (r *poolsRunner) runStruct(d poolsDesc, fnMap valid.Name2FnMap, o *poolsOut
 	case len(typed) == 0 && len(fnMap) == 0 && choice == 1:
 		if unscoped != nil {
 			o.api = "ValidStructForRule"
-			err = valid.ValidStructForRule(unscoped, src, d.Tag)
+			err = valid.ValidStructForRule(unscoped, src, tag)
 		} else {
 			o.api = "ValidateStruct"
-			err = valid.ValidateStruct(src, d.Tag)
+			err = valid.ValidateStruct(src, tag)
 		}
 	case len(typed) == 0 && unscoped == nil && len(fnMap) == 1 && choice < 2:
 		o.api = "ValidStructForMyValidFn"
 		for n, fn := range fnMap {
-			err = valid.ValidStructForMyValidFn(src, n, fn, d.Tag)
+			err = valid.ValidStructForMyValidFn(src, n, fn, tag)
 		}
 	case len(typed) == 0 && choice == 2:
 		o.api = "StructForFns"
-		err = valid.StructForFns(src, unscoped, fnMap, d.Tag)
+		err = valid.StructForFns(src, unscoped, fnMap, tag)
 	case len(typed) > 0 && unscoped == nil && len(fnMap) == 0 && d.Tag == "valid" && choice == 3:
 		o.api = "NestedStructForRule"
 		m := map[interface{}]valid.RM{}
@@ -656,7 +719,7 @@ func (r *poolsRunner) runStruct(d poolsDesc, fnMap valid.Name2FnMap, o *poolsOut
 		if d.Tag == "valid" && r.rng.Intn(2) == 0 {
 			vs = valid.NewVStruct()
 		} else {
-			vs = valid.NewVStruct(d.Tag)
+			vs = valid.NewVStruct(tag)
 		}
 		o.ptr = reflect.ValueOf(vs).Pointer()
 		if unscoped != nil {
@@ -693,6 +756,12 @@ func (r *poolsRunner) runStruct(d poolsDesc, fnMap valid.Name2FnMap, o *poolsOut
 }
 
 func poolsScalar(v poolsVal) interface{} {
+	switch v.K {
+	case "badvar": // not a scalar at all: Var refuses it
+		return struct{ A int }{7}
+	case "nilvar":
+		return nil
+	}
 	if v.K == "int" {
 		return v.N
 	}
@@ -967,6 +1036,7 @@ func poolsConc(args []string) error {
 	gors := fs.String("gor", "2x200,8x100,32x50", "runs: <goroutines>x<calls per goroutine>")
 	priv := fs.Int("private", 10, "private clones of each anonymous type per goroutine")
 	tmo := fs.Int("timeout", 120, "seconds before a run counts as deadlocked")
+	volleys := fs.Int("volleys", 0, "per run: rounds in which all goroutines use a brand-new type under brand-new tag names at the same moment")
 	if err := fs.Parse(args); err != nil {
 		return err
 	}
@@ -999,11 +1069,65 @@ func poolsConc(args []string) error {
 		var wg sync.WaitGroup
 		var inflight, maxInflight int32
 		start := make(chan struct{})
+		// volleys: two descriptors of one anonymous flat type under two different non-default tag names
+		var volA, volB *poolsDescRec
+		for i := range w.descs {
+			d := w.descs[i].D
+			if d.Car != "struct" || len(d.Typed) > 0 || len(d.Unscoped) > 0 || d.Tag == "valid" || d.Val.K == "nilptr" {
+				continue
+			}
+			if _, named := poolsNamed[d.T]; named {
+				continue
+			}
+			flat := true
+			for _, f := range w.types[d.T].Fields {
+				flat = flat && f.Elem == ""
+			}
+			if !flat {
+				continue
+			}
+			if volA == nil {
+				volA = &w.descs[i]
+			} else if volB == nil && d.T == volA.D.T && d.Tag != volA.D.Tag {
+				volB = &w.descs[i]
+			}
+		}
+		nvol := *volleys
+		if volA == nil || volB == nil {
+			if nvol > 0 {
+				return fmt.Errorf("pools-conc: no pair of descriptors for the volleys")
+			}
+			nvol = 0
+		}
+		volTypes := make([]reflect.Type, nvol)
+		volNames := make([][2]string, nvol)
+		for v := 0; v < nvol; v++ {
+			volNames[v] = [2]string{fmt.Sprintf("x%dr%dv%d", seed()%1000, run, v), fmt.Sprintf("y%dr%dv%d", seed()%1000, run, v)}
+			volTypes[v] = w.volleyType(w.types[volA.D.T], volA.D.Tag, volNames[v][0], volB.D.Tag, volNames[v][1], run*1000000+v)
+		}
+		var barMu sync.Mutex
+		barCond := sync.NewCond(&barMu)
+		barCount, barGen := 0, 0
+		barrier := func() {
+			barMu.Lock()
+			gen := barGen
+			barCount++
+			if barCount == G {
+				barCount = 0
+				barGen++
+				barCond.Broadcast()
+			} else {
+				for gen == barGen {
+					barCond.Wait()
+				}
+			}
+			barMu.Unlock()
+		}
 		for g := 0; g < G; g++ {
 			wg.Add(1)
 			go func(g int) {
 				defer wg.Done()
-				r := &poolsRunner{w: w, rng: rand.New(rand.NewSource(seed()*1000003 + int64(G)*131 + int64(g))), g: g + 1, shared: 0.4}
+				r := &poolsRunner{w: w, rng: rand.New(rand.NewSource(seed()*1000003 + int64(G)*131 + int64(g))), g: g + 1, shared: 0.4, alias: run + 1}
 				var prev, cur []*poolsKept
 				flush := func(ks []*poolsKept) {
 					for _, k := range ks {
@@ -1014,6 +1138,25 @@ func poolsConc(args []string) error {
 					}
 				}
 				<-start
+				for v := 0; v < nvol; v++ {
+					barrier()
+					// first use of the two names at the same moment, then each goroutine under the other name
+					for step := 0; step < 2; step++ {
+						rec, tn := *volA, volNames[v][0]
+						if (g+step)%2 == 1 {
+							rec, tn = *volB, volNames[v][1]
+						}
+						c := (g+1)*1000000 + 500000 + 2*v + step + 1
+						ce := poolsCallEvent(c, rec, g+1, rec.D.T+"#vol"+strconv.Itoa(v))
+						ce.stamp = atomic.AddInt64(&stamp, 1)
+						r.volType, r.volTag = volTypes[v], tn
+						o := r.run(c, rec, 0)
+						r.volType, r.volTag = nil, ""
+						re := poolsRetEvent(c, rec, o, g+1, false, false)
+						re.stamp = atomic.AddInt64(&stamp, 1)
+						evs[g] = append(evs[g], ce, re)
+					}
+				}
 				for i := 0; i < N; i++ {
 					var id int
 					if r.rng.Intn(4) == 0 {
